@@ -37,6 +37,8 @@ CG_STRINGS = [
     "{[#SP4]1.2[#SP4].3[#SP1r]1.[#TC4]23}",
     "{[#A]=[#B]#[#C]$[#D]}",
 ]
+# a 300-atom chain (rare: the layout needs several seconds)
+BIG_STRINGS = ["{[#H][#PE]|50[#H]}.{#PE=[$]CC[$],#H=[$][H]}", "{[#A][#PEO]|34[#A]}.{#PEO=[$]COC[$],#A=[$]C}"]
 MOL_STRINGS = [
     "{[#OHter][#PEO]|2[#OHter]}.{#PEO=[$]COC[$],#OHter=[$]O}",
     "{[#TC5]1[#TC5][#TC5]1}.{#TC5=[$]cc[$]}",
@@ -108,8 +110,14 @@ def _source(rng):
         source = {"type": "resolved", "kind": "decomp", "string": item["multi"], "last_all_atom": True}
     elif roll < 0.90:
         source = {"type": "resolved", "kind": "ez", "string": rng.choice(EZ_STRINGS), "last_all_atom": True}
-    else:
+    elif roll < 0.992:
         source = {"type": "resolved", "kind": "curated", "string": rng.choice(MOL_STRINGS), "last_all_atom": True}
+    else:
+        source = {"type": "resolved", "kind": "big", "string": rng.choice(BIG_STRINGS), "last_all_atom": True}
+    if rng.random() < 0.1:
+        # the molecule carries 3D coordinates from elsewhere (an extra node attribute the layout must not depend on):
+        # standard orientation along z, or a planar molecule in the xz plane
+        source["positions"] = rng.choice(["along_z", "xz_plane", "random3d"])
     return source
 
 
@@ -248,6 +256,17 @@ def run_history(scenario):
             return {"rejected": "resolve raised %s" % type(exc).__name__, "events": [], "violations": [], "stats": {}}
         if not nx.is_connected(g) or g.number_of_edges() == 0:
             return {"rejected": "graph not connected or without bond", "events": [], "violations": [], "stats": {}}
+        if src.get("positions"):
+            import random as _r
+            prng = _r.Random(H("positions", sc["run_seed"], len(graphs)))
+            for k, n in enumerate(g.nodes):
+                if src["positions"] == "along_z":
+                    g.nodes[n]["position"] = np.array([0.0, 0.0, 1.2 * k])
+                elif src["positions"] == "xz_plane":
+                    g.nodes[n]["position"] = np.array([prng.uniform(-5, 5), 0.0, prng.uniform(-5, 5)])
+                else:
+                    g.nodes[n]["position"] = np.array([prng.uniform(-5, 5) for _ in range(3)])
+            stats["graphs_with_3d_positions"] = stats.get("graphs_with_3d_positions", 0) + 1
         graphs.append(g)
         stats["nodes"] = stats.get("nodes", 0) + len(g)
         stats["has_ez"] = stats.get("has_ez", 0) + int(any("ez_isomer" in g.nodes[n] for n in g.nodes))
